@@ -27,6 +27,14 @@ DEL_METHODS = {"remove", "remove_graph", "remove_context", "__isub__"}
 INS_METHODS = {"add", "addN", "add_graph", "__iadd__", "parse", "load"}
 
 
+def _plain_mod(repo: Repo, name: str):
+    """the module as the rules read it: loops over a literal table of phases written out row by row, `operator.isub(g, x)` written
+    `g -= x` (vlib/h_c10.plain) - what a phase does, with which callable, and in which order is what the table says"""
+    from vlib import h_c10 as H
+
+    return H.plain(repo.mod(name))
+
+
 def _mutation_kind(n: ast.AST) -> str | None:
     if isinstance(n, ast.AugAssign):
         if isinstance(n.op, ast.Sub):
@@ -165,9 +173,9 @@ def run(repo: Repo, rep: Report) -> None:
     from vlib import h_c10 as H
 
     rep.extra["explanation"] = EXPLANATION
-    up = repo.mod("rdflib.plugins.sparql.update")
-    eu = repo.mod("rdflib.plugins.sparql.evalutils")
-    alg = repo.mod("rdflib.plugins.sparql.algebra")
+    up = _plain_mod(repo, "rdflib.plugins.sparql.update")
+    eu = _plain_mod(repo, "rdflib.plugins.sparql.evalutils")
+    alg = _plain_mod(repo, "rdflib.plugins.sparql.algebra")
     evaluators = {q: f for q, f in up.functions() if q.startswith("eval") and "." not in q}
     if len(evaluators) < 12:
         raise AnalysisError("expected >= 12 update evaluators, found %s" % sorted(evaluators))
@@ -312,9 +320,11 @@ def run(repo: Repo, rep: Report) -> None:
                         if k.arg == used:
                             marg = k.value
                 if marg is not None:
-                    made = [a for a in own_nodes(f) if isinstance(a, (ast.Assign, ast.AnnAssign)) and norm(a.targets[0] if isinstance(a, ast.Assign) else a.target) == norm(marg)]
+                    # the bindings of the map that can REACH this call (the name may serve another phase elsewhere in the function): each is a plain
+                    # assignment that is a statement of the scope of one solution / of the operation, executed before the call in that scope
                     scope = loop if loop is not None else f
-                    okm = bool(made) and all(up.parent.get(id(a)) is scope for a in made)
+                    made = H.reaching_assignments(up, f, marg) if isinstance(marg, ast.Name) else []
+                    okm = bool(made) and all(a is not None and up.parent.get(id(a)) is scope and H.precedes_in(up, scope, a, c) for a in made)
                     rep.ob("C10.c-bnodes-fresh-per-solution", up, q, "map %s passed to %s" % (norm(marg), norm(c)[:50]), okm,
                            "made anew for each %s" % ("solution" if loop is not None else "operation") if okm else
                            "the blank node map %s handed to _fillTemplate is not made anew in the body of the loop over solutions: one solution's blank nodes are reused for the next" % norm(marg), node=c)
@@ -556,7 +566,7 @@ def run(repo: Repo, rep: Report) -> None:
 
 def real_default_graph_rule(repo: Repo, rep: Report) -> None:
     """(i) writes outside GRAPH go to the real default graph"""
-    up = repo.mod("rdflib.plugins.sparql.update")
+    up = _plain_mod(repo, "rdflib.plugins.sparql.update")
     rep.rule("C10.i-writes-target-real-default-graph",
              "no update evaluator (nor _graphOrDefault/_graphAll) mutates, or hands out for mutation, `ctx.graph` itself: with the default-graph-is-union "
              "switch on that is the union view of the dataset; the target of writes outside GRAPH is obtained through a selector that maps a "
@@ -610,7 +620,7 @@ def active_graph_rule(repo: Repo, rep: Report) -> None:
     from vlib import h_c10 as H
     from vlib.cfg import reaching_defs
 
-    up = repo.mod("rdflib.plugins.sparql.update")
+    up = _plain_mod(repo, "rdflib.plugins.sparql.update")
     rep.rule("C10.j-with-using-select-active-graph",
              "in evalModify, for each of the four presence combinations of USING and WITH, the query context that is current (the value of the local that holds "
              "it - whatever that local is called, at each of the calls that evaluate WHERE (no path passes two of them) -, followed on every feasible path through copies and tuples that are packed and unpacked; branch feasibility "
@@ -818,8 +828,8 @@ _run_base = run
 
 def run(repo: Repo, rep: Report) -> None:  # noqa: F811
     _layer(rep, _run_base, repo)
-    up = repo.mod("rdflib.plugins.sparql.update")
-    alg = repo.mod("rdflib.plugins.sparql.algebra")
+    up = _plain_mod(repo, "rdflib.plugins.sparql.update")
+    alg = _plain_mod(repo, "rdflib.plugins.sparql.algebra")
     # ------------------------------------------------------------------ (k)
     def rule_k() -> None:
         rep.rule("C10.k-solution-multiset-kept",
@@ -900,9 +910,9 @@ def run(repo: Repo, rep: Report) -> None:  # noqa: F811
     from vlib import h_c10 as H
 
     T = repo.typed
-    up = repo.mod("rdflib.plugins.sparql.update")
-    eu = repo.mod("rdflib.plugins.sparql.evalutils")
-    alg = repo.mod("rdflib.plugins.sparql.algebra")
+    up = _plain_mod(repo, "rdflib.plugins.sparql.update")
+    eu = _plain_mod(repo, "rdflib.plugins.sparql.evalutils")
+    alg = _plain_mod(repo, "rdflib.plugins.sparql.algebra")
     sp = repo.mod("rdflib.plugins.sparql.sparql")
     ev = repo.mod("rdflib.plugins.sparql.evaluate")
     rep.extra["explanation"] = rep.extra.get("explanation", "") + (
@@ -1087,7 +1097,9 @@ def run(repo: Repo, rep: Report) -> None:  # noqa: F811
         params_ft = [a.arg for a in ft.args.args]
         map_param = None
         for i, a in enumerate(params_ft):
-            if i >= 2 and any(isinstance(n, ast.Subscript) and isinstance(n.value, ast.Name) and n.value.id == a for n in own_nodes(ft)):
+            # the parameter whose value is the map that is looked up: subscripted under its own name or under a local that is a plain copy of
+            # it, in the body or in a closure of the function (which reads the enclosing local unless it binds the name itself)
+            if i >= 2 and H.looked_up_through(ft, a):
                 map_param = a
         for q, f in evaluators.items():
             if len(f.args.args) < 2:
@@ -1145,9 +1157,12 @@ def run(repo: Repo, rep: Report) -> None:  # noqa: F811
                     elif any(not isinstance(o, ast.Name) or o.id != m.id for o in margs):
                         why = "the parts of one instantiation are given different blank-node maps"
                     else:
-                        bs = du.bindings(m.id)
-                        made = [n for n in own_nodes(f) if isinstance(n, (ast.Assign, ast.AnnAssign)) and norm(n.targets[0] if isinstance(n, ast.Assign) else n.target) == m.id]
-                        if len(bs) != 1 or bs[0][0] != "assign" or not isinstance(bs[0][1], (ast.Call, ast.Dict)) or len(made) != 1 or not any(s is made[0] for s in scope_node.body):  # type: ignore[attr-defined]
+                        # what reaches the parts of THIS instantiation (the same local may be bound again for another phase / operation elsewhere): one
+                        # binding, the same for every part, a fresh construction, a statement of the scope of the instantiation
+                        bs = du.bindings(m.id, m)
+                        made = H.reaching_assignments(up, f, m)
+                        same = all(isinstance(o, ast.Name) and [id(x) for x in H.reaching_assignments(up, f, o)] == [id(x) for x in made] for o in margs)
+                        if len(bs) != 1 or bs[0][0] != "assign" or not isinstance(bs[0][1], (ast.Call, ast.Dict)) or len(made) != 1 or not same or not any(s is made[0] for s in scope_node.body):  # type: ignore[attr-defined]
                             why = "the blank-node map %s is not made exactly once, by a fresh construction, at the top of the scope of one instantiation (%s)" % (
                                 m.id, "the body of the loop over solutions" if scope_node is not f else "the operation")
                     rep.ob("C10.p-one-bnode-map-per-instantiation", up, q, c, why is None, why or "shares the one fresh map of its instantiation", node=c)
@@ -1167,11 +1182,14 @@ def run(repo: Repo, rep: Report) -> None:  # noqa: F811
             if not var_tests:
                 continue
             names: set[str] | None = None
+            du_q = H.DefUse(alg, tu, set())
             for e, truth in fa:  # innermost first
-                if truth and isinstance(e, ast.Compare) and norm(e.left).endswith(".name") and len(e.ops) == 1:
+                if truth and isinstance(e, ast.Compare) and H.is_operation_name(du_q, e.left) and len(e.ops) == 1:
                     k = e.comparators[0]
-                    if isinstance(e.ops[0], ast.In) and isinstance(k, (ast.Tuple, ast.List, ast.Set)):
-                        names = {x.value for x in k.elts if isinstance(x, ast.Constant)}
+                    if isinstance(e.ops[0], ast.In):
+                        # the operations a membership test admits: the constants of the collection on its right, written there or held by a
+                        # module constant that is bound once to a display / frozenset(...) of constants
+                        names = H.constant_members(alg, k)
                     elif isinstance(e.ops[0], ast.Eq) and isinstance(k, ast.Constant):
                         names = {k.value}
                     if names is not None:
@@ -1184,7 +1202,7 @@ def run(repo: Repo, rep: Report) -> None:  # noqa: F811
                 if isinstance(n, ast.Assign) and isinstance(n.targets[0], ast.Tuple) and len(n.targets[0].elts) == 2 and isinstance(n.value, ast.Call) and norm(n.value.func) == "translateQuads" \
                         and all(isinstance(e, ast.Name) for e in n.targets[0].elts):
                     facts_n = {norm(e) for e, t in H.atoms(H.guard_facts(alg, tu, n)) if t}
-                    if any(norm(e) in facts_n for e, t in fa if t and norm(e.left if isinstance(e, ast.Compare) else e).endswith(".name")):
+                    if any(norm(e) in facts_n for e, t in fa if t and isinstance(e, ast.Compare) and H.is_operation_name(du_q, e.left)):
                         pair = [e.id for e in n.targets[0].elts]
             du_tu = H.DefUse(alg, tu, set())
             seen_names: set[str] = set()
@@ -1391,8 +1409,8 @@ def run(repo: Repo, rep: Report) -> None:  # noqa: F811
     from vlib.h_c04 import Grammar
 
     T = repo.typed
-    up = repo.mod("rdflib.plugins.sparql.update")
-    alg = repo.mod("rdflib.plugins.sparql.algebra")
+    up = _plain_mod(repo, "rdflib.plugins.sparql.update")
+    alg = _plain_mod(repo, "rdflib.plugins.sparql.algebra")
     sp = repo.mod("rdflib.plugins.sparql.sparql")
     par = repo.mod("rdflib.plugins.sparql.parser")
     rep.extra["explanation"] = rep.extra.get("explanation", "") + (
